@@ -46,7 +46,7 @@ ASSUMPTIONS = [
     "the exact boundary of the admissible rho interval is left open (1e-9 margin on the joint probabilities)",
     "floor(n*p) accepts either neighbour when n*p is within 1e-9 of an integer",
 ]
-PROBES = ["adversarial_binomial", "adversarial_normal", "adversarial_choice", "adversarial_shuffle", "default_rng_entropy", "invalid_rho",
+PROBES = ["generator_failure", "adversarial_binomial", "adversarial_normal", "adversarial_choice", "adversarial_shuffle", "default_rng_entropy", "invalid_rho",
           "valid_rho", "from_metrics", "nonrandom_bernoulli", "nonrandom_correlated", "random_correlated", "score_class_neg", "p_edge"]
 
 
@@ -65,6 +65,9 @@ def gen_prob(rnd):
 
 def gen_rng(rnd, fns):
     r = rnd.random()
+    if r < 0.06:
+        # a generator that fails on its k-th call: the call may fail, the model must survive intact
+        return {"kind": "adversarial", "seed": rnd.randrange(2**31), "plan": [{"kind": "rng_raise", "call": rnd.randint(0, 2)}]}
     if r < 0.3:
         return {"kind": "faithful", "seed": rnd.randrange(2**31)}
     if r < 0.42:
@@ -242,6 +245,14 @@ def execute(scn, ctx):
         except Exception as e:  # noqa: BLE001
             bad("analytic_raises", f"analytic method raised {type(e).__name__}: {e}")
 
+    def snap(obj):
+        return None if obj is None else tuple((k_, repr(v_)) for k_, v_ in sorted(vars(obj).items()))
+
+    model0 = {"normal": snap(nd), "bernoulli": snap(bd), "correlated": snap(cd)}
+    nd_n0 = nd.n if nd is not None else None  # expectations come from the model as constructed, not as found later
+    nd_p0 = nd.p_pos if nd is not None else None
+    bd_n0, cd_n0 = bd.n, cd.n
+
     # ---- sampling operations under controlled generators
     for step, op in enumerate(scn["ops"]):
         rng = make_rng(op["rng"])
@@ -255,16 +266,16 @@ def execute(scn, ctx):
                 if nd is None:
                     continue
                 n_arg = op["n"]
-                if n_arg is None and nd.n is not None and nd.n > 2000:
+                if n_arg is None and nd_n0 is not None and nd_n0 > 2000:
                     n_arg = 300  # from_metrics models imply up to 1e8 samples: keep the simulated draw small
-                n_eff = n_arg if n_arg is not None else nd.n
+                n_eff = n_arg if n_arg is not None else nd_n0
                 if n_eff is None:
                     continue  # no size anywhere: not in the quantifier (n >= 1)
                 kw = {}
                 if op.get("p_pos") is not None:
                     kw["p_pos"] = op["p_pos"]
                 s = nd.sample(n_arg, rng=rng, **kw)
-                p_eff = op["p_pos"] if op.get("p_pos") is not None else nd.p_pos
+                p_eff = op["p_pos"] if op.get("p_pos") is not None else nd_p0
                 if not isinstance(s, L.Scores):
                     bad("normal_sample", f"sample() returned {type(s).__name__}", tags)
                 else:
@@ -294,7 +305,7 @@ def execute(scn, ctx):
                         bad("normal_sample", "sample scores are not sorted", tags)
                 states.add(f"normal|{tags['rng']}|{'neg' if str(getattr(nd.score_class, 'value', nd.score_class)) == 'neg' else 'pos'}|p{p_eff in (0.0, 1.0)}")
             elif ds == "bernoulli":
-                n_eff = op["n"] or bd.n
+                n_eff = op["n"] or bd_n0
                 if n_eff is None:
                     try:
                         bd.sample(op["n"], random=op["random"], rng=rng)
@@ -317,7 +328,7 @@ def execute(scn, ctx):
                             bad("bernoulli_sample", f"random sample with p={bd.p} has {int(data.sum())} successes of {n_eff}", tags)
                 states.add(f"bernoulli|{tags['rng']}|{op['random']}|p{bd.p in (0.0, 1.0)}")
             else:
-                n_eff = op["n"] or cd.n
+                n_eff = op["n"] or cd_n0
                 if n_eff is None:
                     try:
                         cd.sample(op["n"], random=op["random"], rng=rng)
@@ -359,8 +370,17 @@ def execute(scn, ctx):
                         outcome = "boundary"
                 states.add(f"correlated|{tags['rng']}|{op['random']}|{'valid' if rho_valid else 'invalid' if rho_invalid else 'boundary'}")
         except Exception as e:  # noqa: BLE001
-            outcome = "raise:" + type(e).__name__
-            bad("sample_raises", f"{ds}.sample raised {type(e).__name__}: {e}", dict(tags, error=type(e).__name__))
+            if rng is not None and "rng_raise" in rng.fired:
+                outcome = "failed-after-fault"  # fail-or-correct: the model is checked below
+                fired = list(rng.fired)
+            else:
+                outcome = "raise:" + type(e).__name__
+                bad("sample_raises", f"{ds}.sample raised {type(e).__name__}: {e}", dict(tags, error=type(e).__name__))
+        now = {"normal": snap(nd), "bernoulli": snap(bd), "correlated": snap(cd)}
+        if now != model0:
+            which = [k_ for k_ in now if now[k_] != model0[k_]]
+            bad("model_unchanged", f"{ds}.sample() left the dataset object(s) {which} modified: {dict(now[which[0]])} (was {dict(model0[which[0]])})", tags)
+            model0 = now
         if seam.entropy_requests != ent0:
             probe("default_rng_entropy")
             if rng is not None:
@@ -368,7 +388,8 @@ def execute(scn, ctx):
         for kd in fired:
             faults[kd] = faults.get(kd, 0) + 1
             n_adv += 1
-            probe({"binom": "adversarial_binomial", "norma": "adversarial_normal", "categ": "adversarial_choice", "shuff": "adversarial_shuffle"}[kd[:5]])
+            probe({"binom": "adversarial_binomial", "norma": "adversarial_normal", "categ": "adversarial_choice", "shuff": "adversarial_shuffle",
+                   "rng_r": "generator_failure"}[kd[:5]])
         trace.append([step, ds, tags, sorted(set(fired)), outcome])
         sig.append(f"{ds}|{tags['rng']}|{op.get('random')}|{','.join(sorted(set(fired)))}|{outcome}")
     seen, out = set(), []
